@@ -223,6 +223,8 @@ def check(scenario, w, st, res):
     res.state_sigs = []
     # liveness: bounded termination
     ob()
+    if sim.end_state == 'inconclusive':
+        return
     if sim.end_state != 'done':
         if sim.fail_fast:
             V[:] = [('C15/' + s if not s.startswith('C15/') else s, d)
